@@ -82,6 +82,12 @@ impl<'s, M: Matcher, S: Sink> Core<'s, M, S> {
         self.binary_byte_offset.map(|offset| offset as u64)
     }
 
+    /// The offset of the binary data that ended the search, if any. (Binary
+    /// data that is merely converted does not: the search goes on.)
+    pub(crate) fn binary_quit_offset(&self) -> Option<u64> {
+        self.config.binary.quit_byte().and(self.binary_byte_offset())
+    }
+
     pub(crate) fn matcher(&self) -> &M {
         &self.matcher
     }
